@@ -123,6 +123,28 @@ fn gen_table(r: &mut Rng, name: &'static str, cols: Vec<(&'static str, Ty, bool)
                 i += k;
             }
         }
+        3 => {
+            // duplicates: 1..3 distinct rows, each 1..3 times, shuffled, in chunks of 1..3 rows
+            let nd = r.range(1, 3) as usize;
+            let mut rows: Vec<Vec<String>> = vec![];
+            for _ in 0..nd {
+                let base = row(r, false);
+                for _ in 0..r.range(1, 3) {
+                    rows.push(base.clone());
+                }
+            }
+            for k in (1..rows.len()).rev() {
+                let j = r.below(k as u64 + 1) as usize;
+                rows.swap(k, j);
+            }
+            let n = rows.len();
+            let mut i = 0;
+            while i < n {
+                let k = (r.range(1, 3) as usize).min(n - i);
+                chunks.push(rows[i..i + k].to_vec());
+                i += k;
+            }
+        }
         _ => {
             let n = match r.below(10) {
                 0 => 0,
@@ -219,6 +241,9 @@ struct Query {
     /// LIMIT/OFFSET WITHOUT ORDER BY: `sql` carries it, `lite` and `logical` do not (the oracle
     /// answers the unlimited query; the check compares count and membership only)
     limit: Option<(i64, i64)>,
+    /// the query has a correlated scalar aggregate subquery: `logical` carries the placeholder `@MODE@`
+    /// (sql | countbug | collapse | both) of its `applyagg` node
+    scalar_sub: bool,
 }
 
 fn scan_plan(t: usize, ncols: usize) -> String {
@@ -230,14 +255,14 @@ fn list(xs: &[String]) -> String {
     if xs.is_empty() { "list".into() } else { format!("(list {})", xs.join(" ")) }
 }
 
-fn gen_query(r: &mut Rng, t0: &Tbl, t1: &Tbl) -> Query {
+fn gen_query(r: &mut Rng, t0: &Tbl, t1: &Tbl, force_scalar: bool) -> Query {
     let cols0: Vec<Col> = t0.cols.iter().enumerate().map(|(i, c)| Col { sql: c.0.into(), plan: format!("$0.{i}"), ty: c.1 }).collect();
     let cols1: Vec<Col> = t1.cols.iter().enumerate().map(|(i, c)| Col { sql: c.0.into(), plan: format!("$1.{i}"), ty: c.1 }).collect();
     let mut shape = String::new();
 
     // FROM
     let (mut from_sql, mut from_plan, cols): (String, String, Vec<Col>);
-    let jk = r.below(10);
+    let jk = if force_scalar { 0 } else { r.below(10) };
     // a FROM item may be a sub-select with ORDER BY (same bag of rows; it is what lets the planner's
     // order rules pick the merge join / the sort aggregation instead of the hash operators)
     let sub = |t: &Tbl, keys: &[&str]| {
@@ -314,7 +339,62 @@ fn gen_query(r: &mut Rng, t0: &Tbl, t1: &Tbl) -> Query {
         where_lite.push(p.lite);
         shape += " where";
     }
-    if jk < 5 && r.chance(1, 3) {
+    let mut scalar_sub = false;
+    if force_scalar {
+        // correlated SCALAR aggregate subquery: `<outer col> <cmp> (SELECT agg FROM t1 WHERE corr [AND f]
+        // [GROUP BY corr col])`, `(…) = k`, `(…) IS [NOT] NULL`.  L1: nested iteration (`applyagg`).
+        scalar_sub = true;
+        let sub_filter = if r.chance(1, 3) { Some(gen_pred(r, &cols1, 0)) } else { None };
+        let mut sub_plan = scan_plan(1, t1.cols.len());
+        if let Some(f) = &sub_filter {
+            sub_plan = format!("(filter {} {sub_plan})", f.plan);
+        }
+        let (o, i) = if r.chance(1, 4) { (1usize, 1usize) } else { (0, 0) };
+        let (agg_sql, agg_plan) = match r.below(6) {
+            0 | 1 => ("count(*)".to_string(), "rowcount".to_string()),
+            2 => (format!("count({})", cols1[2].sql), format!("(count {})", cols1[2].plan)),
+            3 => (format!("sum({})", cols1[2].sql), format!("(sum {})", cols1[2].plan)),
+            4 => (format!("min({})", cols1[2].sql), format!("(min {})", cols1[2].plan)),
+            _ => (format!("max({})", cols1[2].sql), format!("(max {})", cols1[2].plan)),
+        };
+        let gb = r.chance(1, 4);
+        let subq = format!(
+            "(SELECT {agg_sql} FROM {} WHERE {} = {}{}{})",
+            t1.name,
+            cols1[i].sql,
+            cols0[o].sql,
+            sub_filter.as_ref().map(|f| format!(" AND {}", f.sql)).unwrap_or_default(),
+            if gb { format!(" GROUP BY {}", cols1[i].sql) } else { String::new() }
+        );
+        let corr = format!("(= {} {})", cols1[i].plan, cols0[o].plan);
+        let form = if gb { r.below(2) } else { r.below(3) };
+        let (p_sql, p_plan) = match form {
+            0 => {
+                let oc = &cols0[2];
+                let (op, pop) = *r.pick(&[("=", "="), ("<", "<"), (">=", ">="), ("<>", "<>")]);
+                (format!("{} {op} {subq}", oc.sql), format!("({pop} {} {agg_plan})", oc.plan))
+            }
+            1 => {
+                let k = r.range(0, 2);
+                let (op, pop) = *r.pick(&[("=", "="), (">", ">"), ("<=", "<=")]);
+                (format!("{subq} {op} {k}"), format!("({pop} {agg_plan} {k})"))
+            }
+            _ => {
+                if r.chance(1, 2) {
+                    (format!("{subq} IS NULL"), format!("(isnull {agg_plan})"))
+                } else {
+                    (format!("{subq} IS NOT NULL"), format!("(not (isnull {agg_plan}))"))
+                }
+            }
+        };
+        from_plan = format!("(filter {p_plan} (applyagg @MODE@ {} {agg_plan} {corr} {from_plan} {sub_plan}))", if gb { 1 } else { 0 });
+        where_lite.push(p_sql.clone());
+        where_sql.push(p_sql);
+        shape += &format!(" scalar-sub/{}{}", agg_sql.split('(').next().unwrap(), if agg_sql == "count(*)" { "*" } else { "" });
+        shape += if gb { "/group-by" } else { "" };
+        shape += ["/cmp-col", "/cmp-const", "/is-null"][form as usize];
+    }
+    if !force_scalar && jk < 5 && r.chance(1, 3) {
         // subquery over t1 (only when t1 is not already in FROM)
         let sub_filter = if r.chance(1, 3) { Some(gen_pred(r, &cols1, 0)) } else { None };
         let mut sub_plan = scan_plan(1, t1.cols.len());
@@ -533,7 +613,7 @@ fn gen_query(r: &mut Rng, t0: &Tbl, t1: &Tbl) -> Query {
         shape += " limit-unordered";
         limit = Some((n, off));
     }
-    Query { shape, sql, lite, logical: plan, ordered, limit }
+    Query { shape, sql, lite, logical: plan, ordered, limit, scalar_sub }
 }
 
 fn gen(n: usize, out: &str) {
@@ -550,12 +630,16 @@ fn gen(n: usize, out: &str) {
             30..=34 => (1, 1),
             _ => (0, 0),
         };
+        // 14 % of the triples carry a correlated scalar aggregate subquery; half of them over an outer
+        // table with duplicate rows (layout 3)
+        let force_scalar = r.chance(14, 100);
+        let l0 = if force_scalar && l0 != 2 && r.chance(1, 2) { 3 } else { l0 };
         let t0 = gen_table(&mut r, "t0", vec![("a", Ty::I32, true), ("b", Ty::I64, true), ("c", Ty::I32, false), ("s", Ty::Str, true), ("d", Ty::Bool, false)], l0);
         let t1 = gen_table(&mut r, "t1", vec![("x", Ty::I32, true), ("y", Ty::I64, true), ("z", Ty::I32, false), ("w", Ty::Str, true)], l1);
-        let q = gen_query(&mut r, &t0, &t1);
+        let q = gen_query(&mut r, &t0, &t1, force_scalar);
         let tj = |t: &Tbl| json!({"name": t.name, "cols": t.cols.iter().map(|c| json!([c.0, c.1.tag(), c.1.sql()])).collect::<Vec<_>>(), "chunks": t.chunks});
         let v = json!({"id": id, "shape": q.shape, "tables": [tj(&t0), tj(&t1)], "sql": q.sql, "sqlite": q.lite, "logical": q.logical, "ordered": q.ordered,
-            "limit": q.limit.map(|l| json!([l.0, l.1])), "disk": r.chance(2, 5)});
+            "limit": q.limit.map(|l| json!([l.0, l.1])), "disk": r.chance(2, 5), "scalar_sub": q.scalar_sub});
         s += &v.to_string();
         s.push('\n');
     }
